@@ -28,7 +28,7 @@ def main():
     for a in sys.argv[1:]:
         if a.startswith("--checks="):
             extra_checks = a.split("=", 1)[1].split(",")
-    src = "/tmp/seed-out/%s" % pid
+    src = os.environ.get("SEED_OUT", "/tmp/seed-out") + "/%s" % pid
     readme = open(os.path.join(src, "README.md")).read() if os.path.exists(os.path.join(src, "README.md")) else ""
     if not os.path.isdir(WT):
         sh("git -C /repo worktree add --detach %s HEAD" % WT)
